@@ -510,7 +510,22 @@ pub fn run_case(id: &str, c: &LayoutCase, out: &mut String) {
 }
 
 pub fn gen_case(r: &mut Rng) -> LayoutCase {
-    let rows = gen_rows(r);
+    let mut rows = gen_rows(r);
+    // now and then: a few note rows without an action (spreadsheet sub-headings) in the first half.
+    // The reader rejects such a row in every layout; whatever a program does with them, it must do
+    // the same in every layout.
+    if r.chance(6) && rows.len() >= 4 {
+        for k in 0..(2 + r.below(2)) {
+            let pos = r.below((rows.len() / 2).max(1) as u64) as usize;
+            let mut cells: Vec<String> = vec![String::new(); 15];
+            cells[0] = rows[pos].cells[0].clone();
+            cells[1] = rows[pos].cells[1].clone();
+            cells[2] = rows[pos].cells[2].clone();
+            cells[14] = format!("note{}", k);
+            let note = Row { sec: rows[pos].sec.clone(), settle_jd: rows[pos].settle_jd, cells };
+            rows.insert(pos, note);
+        }
+    }
     let layout = gen_layout(r, &rows);
     LayoutCase { rows, layout }
 }
